@@ -258,6 +258,57 @@ theorem flat_from_eq_spec (data : Bytes) (off : Nat) (hoff : off ≤ data.size)
       exact ih (data.size - (off + le32 data (off + 4))) (by omega) _ (by omega)
         (fun b hb => hwf b (List.mem_cons_of_mem _ hb)) rfl
 
+/-! ### the format-side well-formedness predicate against the blocks the iterator finds -/
+
+theorem wellFormedDir_from_iff (data : Bytes) (off : Nat) (hoff : off ≤ data.size) :
+    WellFormedDir (data.toList.drop off) ↔ ∀ b ∈ blocksFrom data off, b.WF data := by
+  generalize hn : data.size - off = n
+  induction n using Nat.strongRecOn generalizing off with
+  | ind n ih =>
+    have hlen : (data.toList.drop off).length = data.size - off := by simp
+    by_cases hlt : data.size < off + 8
+    · rw [blocksFrom_of_lt hlt, WellFormedDir, if_pos (by omega)]
+      simp
+    · have hge : off + 8 ≤ data.size := by omega
+      have hsz : leVal (((data.toList.drop off).drop 4).take 4) = le32 data (off + 4) := by
+        rw [List.drop_drop, leVal_take4 data (off + 4) (by omega)]
+      have hmem : blockAt data off ∈ blocksFrom data off := by
+        rw [blocksFrom_of_ge hge]; exact List.mem_cons_self
+      rw [WellFormedDir, if_neg (by omega)]
+      simp only [hsz]
+      by_cases hbad : le32 data (off + 4) < 8 ∨ (data.toList.drop off).length < le32 data (off + 4)
+      · rw [if_pos hbad]
+        constructor
+        · intro h; exact h.elim
+        · intro h
+          obtain ⟨_, h8, hin⟩ := h _ hmem
+          simp only [blockAt] at h8 hin
+          omega
+      · rw [if_neg hbad]
+        by_cases h4 : le32 data (off + 4) % 4 = 0
+        · have hb : (blockAt data off).WF data := by
+            refine ⟨h4, ?_, ?_⟩ <;> simp only [blockAt] <;> omega
+          rw [blocksFrom_wf hge hb, List.drop_drop, List.forall_mem_cons,
+            ih (data.size - (off + le32 data (off + 4))) (by omega) _ (by omega) rfl]
+          exact ⟨fun h => ⟨hb, h.2⟩, fun h => ⟨h4, h.2⟩⟩
+        · constructor
+          · intro h; exact absurd h.1 h4
+          · intro h; exact absurd (h _ hmem).1 h4
+
+theorem wellFormedDir_decides (dir : List UInt8) : wellFormedDir dir = true ↔ WellFormedDir dir := by
+  generalize hn : dir.length = n
+  induction n using Nat.strongRecOn generalizing dir with
+  | ind n ih =>
+    rw [wellFormedDir, WellFormedDir]
+    by_cases h8 : dir.length < 8
+    · rw [if_pos h8, if_pos h8]; simp
+    · rw [if_neg h8, if_neg h8]
+      simp only
+      by_cases hbad : leVal ((dir.drop 4).take 4) < 8 ∨ dir.length < leVal ((dir.drop 4).take 4)
+      · rw [if_pos hbad, if_pos hbad]; simp
+      · rw [if_neg hbad, if_neg hbad, Bool.and_eq_true, decide_eq_true_eq,
+          ih (dir.drop (leVal ((dir.drop 4).take 4))).length (by rw [List.length_drop]; omega) _ rfl]
+
 /-! ### tiling -/
 
 theorem Tiles.end_eq {s e : Nat} {bs : List Block} (h : Tiles s bs e) :
@@ -391,5 +442,37 @@ theorem runOps_eq_runSeq (data : Bytes) (ops : List Seq.Op) (off : Nat) :
   | cons o os ih =>
     obtain ⟨h1, h2⟩ := stepOp_spec data off o
     rw [runOps, runSeq, ih, h1, h2]
+
+/-! ### images for the non-vacuity examples of the extraction theorem (`C14_extraction`, Thm/C14.lean)
+
+Two FILES with one section `.reloc` (RVA 0x1000, 32 raw bytes directly behind the headers: file offset 272 / 288) and six
+data directories; slot 5 = (0x1000, 28): two well-formed blocks (page 0x2000: one entry and a padding entry; page
+0x3000: three entries and a padding entry).  The generator `gen_pure.gen_relocs_image` reads the arrays out of THIS
+file and replays them through the model driver and the Rust harness on every check. -/
+
+/-- 304-byte PE32 file -/
+def relocFile32 : Bytes := #[
+    77, 90, 0, 0, 0, 0, 0, 0, 0, 0, 0, 0, 0, 0, 0, 0, 0, 0, 0, 0, 0, 0, 0, 0, 0, 0, 0, 0, 0, 0, 0, 0, 0, 0,
+    0, 0, 0, 0, 0, 0, 0, 0, 0, 0, 0, 0, 0, 0, 0, 0, 0, 0, 0, 0, 0, 0, 0, 0, 0, 0, 64, 0, 0, 0, 80, 69, 0, 0,
+    76, 1, 1, 0, 0, 0, 0, 95, 0, 0, 0, 0, 0, 0, 0, 0, 144, 0, 2, 33, 11, 1, 14, 0, 0, 0, 0, 0, 0, 2, 0, 0, 0, 0,
+    0, 0, 0, 16, 0, 0, 0, 16, 0, 0, 0, 32, 0, 0, 0, 0, 64, 0, 0, 16, 0, 0, 4, 0, 0, 0, 6, 0, 0, 0, 0, 0, 0, 0,
+    6, 0, 0, 0, 0, 0, 0, 0, 0, 32, 0, 0, 16, 1, 0, 0, 0, 0, 0, 0, 3, 0, 64, 129, 0, 0, 16, 0, 0, 16, 0, 0, 0, 0,
+    16, 0, 0, 16, 0, 0, 0, 0, 0, 0, 6, 0, 0, 0, 0, 0, 0, 0, 0, 0, 0, 0, 0, 0, 0, 0, 0, 0, 0, 0, 0, 0, 0, 0,
+    0, 0, 0, 0, 0, 0, 0, 0, 0, 0, 0, 0, 0, 0, 0, 0, 0, 0, 0, 0, 0, 16, 0, 0, 28, 0, 0, 0, 46, 114, 101, 108, 111, 99,
+    0, 0, 32, 0, 0, 0, 0, 16, 0, 0, 32, 0, 0, 0, 16, 1, 0, 0, 0, 0, 0, 0, 0, 0, 0, 0, 0, 0, 0, 0, 64, 0, 0, 66,
+    0, 32, 0, 0, 12, 0, 0, 0, 4, 48, 0, 0, 0, 48, 0, 0, 16, 0, 0, 0, 8, 160, 16, 48, 255, 63, 0, 0, 0, 0, 0, 0]
+
+/-- 320-byte PE32+ file -/
+def relocFile64 : Bytes := #[
+    77, 90, 0, 0, 0, 0, 0, 0, 0, 0, 0, 0, 0, 0, 0, 0, 0, 0, 0, 0, 0, 0, 0, 0, 0, 0, 0, 0, 0, 0, 0, 0, 0, 0,
+    0, 0, 0, 0, 0, 0, 0, 0, 0, 0, 0, 0, 0, 0, 0, 0, 0, 0, 0, 0, 0, 0, 0, 0, 0, 0, 64, 0, 0, 0, 80, 69, 0, 0,
+    100, 134, 1, 0, 0, 0, 0, 95, 0, 0, 0, 0, 0, 0, 0, 0, 160, 0, 34, 32, 11, 2, 14, 0, 0, 0, 0, 0, 0, 2, 0, 0, 0, 0,
+    0, 0, 0, 16, 0, 0, 0, 16, 0, 0, 0, 0, 0, 64, 1, 0, 0, 0, 0, 16, 0, 0, 4, 0, 0, 0, 6, 0, 0, 0, 0, 0, 0, 0,
+    6, 0, 0, 0, 0, 0, 0, 0, 0, 32, 0, 0, 32, 1, 0, 0, 0, 0, 0, 0, 3, 0, 96, 129, 0, 0, 16, 0, 0, 0, 0, 0, 0, 16,
+    0, 0, 0, 0, 0, 0, 0, 0, 16, 0, 0, 0, 0, 0, 0, 16, 0, 0, 0, 0, 0, 0, 0, 0, 0, 0, 6, 0, 0, 0, 0, 0, 0, 0,
+    0, 0, 0, 0, 0, 0, 0, 0, 0, 0, 0, 0, 0, 0, 0, 0, 0, 0, 0, 0, 0, 0, 0, 0, 0, 0, 0, 0, 0, 0, 0, 0, 0, 0,
+    0, 0, 0, 16, 0, 0, 28, 0, 0, 0, 46, 114, 101, 108, 111, 99, 0, 0, 32, 0, 0, 0, 0, 16, 0, 0, 32, 0, 0, 0, 32, 1, 0, 0,
+    0, 0, 0, 0, 0, 0, 0, 0, 0, 0, 0, 0, 64, 0, 0, 66, 0, 32, 0, 0, 12, 0, 0, 0, 4, 48, 0, 0, 0, 48, 0, 0, 16, 0,
+    0, 0, 8, 160, 16, 48, 255, 63, 0, 0, 0, 0, 0, 0]
 
 end Pelite.Relocs
